@@ -12,6 +12,13 @@ Two monitors on the real code:
   the oracle is the same table evaluated on what fresh ``Branch.open`` objects
   read before and after, plus the returned ``(updates, conflicts)``.
 
+Sessions: after the independent rounds every case with a branch-backed target keeps ONE
+long-lived, caller-unlocked target ``Branch`` object (and one long-lived source object) and
+drives several transfers into it (primary source, an extra MemoryTags source, pull/push),
+interleaved with writes made through other openers of the target / master / source and with
+reads on the long-lived object.  D is always what a fresh opener reads just before the call, so
+state or caches an earlier transfer left in the object must not leak into the next one.
+
 Persistence: every dictionary installed with ``_set_tag_dict`` is read back
 through a fresh ``Branch.open``; the bencode (de)serialiser is also driven
 directly.
@@ -21,13 +28,18 @@ import os
 ID = "C24"
 LEVEL = "exploration"
 TECHNIQUE = ("contract on breezy.tag._reconcile_tags (rebinding) + end-to-end merge_to/pull/push judged by the "
-             "four-case table on fresh Branch.open read-backs; bencode round trip")
+             "four-case table on fresh Branch.open read-backs, both with fresh objects per transfer and with a long-lived "
+             "unlocked target object interleaved with other openers' writes; bencode round trip")
 LEVEL_TEXT = ("held on the sampled (source dict, destination dict, master dict, overwrite, ignore_master, selector) "
-              "tuples for 10 store pairings; dictionaries over 5-7 names and 4-6 values per case")
+              "tuples for 10 store pairings, and on sampled 8-12 step sessions (transfer into a long-lived target object / "
+              "foreign write / read) per branch-backed target; dictionaries over 5-7 names and 4-6 values per case")
 RULE = ("case = one store pairing (mem>mem, mem>bzr, bzr>bzr, bzr>bound bzr, git>git, git>bzr, git>bound bzr, bzr>git, "
         "mem>git, pull/push bzr>bzr) x several rounds of random (S, D[, M], overwrite, ignore_master, selector) plus a "
-        "batch of direct _reconcile_tags calls; an evaluation = one merge_to/pull/push execution or one direct "
-        "reconcile call judged; non-trivial = source non-empty and at least two of the four table cases "
+        "batch of direct _reconcile_tags calls, plus one session: 8 (quick) / 12 random steps from {transfer into the "
+        "long-lived unlocked target object from the primary or an in-memory source, set/delete/replace through another "
+        "opener of target or master, read on the long-lived object}; an evaluation = one merge_to/pull/push execution or one direct "
+        "reconcile call judged (or one long-lived read compared with a fresh one; non-trivial there = a transfer and a "
+        "foreign write happened since the object's last read); non-trivial = source non-empty and at least two of the four table cases "
         "(source-only, dest-only, identical, differing) occur; distinct = distinct (pairing, S, D, M, flags)")
 CASES = {"quick": 400, "thorough": 6000}
 BUDGET_S = {"quick": 45, "thorough": 700}
@@ -43,6 +55,9 @@ FLOORS = {
     "oracle_git_target": 40,
     "oracle_git_source": 40,
     "oracle_annotated_source_reads_peeled": 10,
+    "oracle_session_transfer": 300,
+    "oracle_session_transfer_after_foreign_write": 40,
+    "oracle_session_long_lived_read": 60,
 }
 EXHAUSTIVE = {"quick": False, "thorough": False}
 RUST = []  # property anchored in Python only; Rust helpers come from the prebuilt breezy/*.so
@@ -53,6 +68,9 @@ ASSUMPTIONS = [
     "with a bound master the reported updates/conflicts are the union of the child's and the master's tables "
     "(documented in InterTags.merge)",
     "the table oracle compares dictionaries with ==; order of updates/conflicts is not judged",
+    "sessions: the long-lived target object is never locked by the caller and the other openers write strictly "
+    "between its calls (no concurrency); MemoryTags.merge_to knows no master, so the master is not judged for an "
+    "in-memory source",
 ]
 
 KINDS = ["mem>mem", "mem>bzr", "bzr>bzr", "bzr>bound", "git>git", "git>bzr", "git>bound", "bzr>git", "mem>git", "pullpush"]
@@ -364,11 +382,13 @@ def bencode_roundtrip(ctx, n):
         ctx.note(("bencode", sorted((k, v.hex()) for k, v in d.items())), nontrivial=len(d) >= 1)
 
 
-def judge(ctx, pfx, kind, via, S, D, M, ow, ignore_master, sub, ret, exc, source, target, master, sample_p, extra=None):
+def judge(ctx, pfx, kind, via, S, D, M, ow, ignore_master, sub, ret, exc, source, target, master, sample_p, extra=None, stale=None):
     """Judge ONE executed transfer against the four-case table on fresh read-backs.
 
-    S, D, M are what fresh objects read from source, target and master just before the transfer.  Returns True
-    when the target's dictionary is the table's.
+    S, D, M are what fresh objects read from source, target and master just before the transfer.  Returns the
+    target's new dictionary when it is the table's, else None.  `stale` (sessions only): what the target held right after the
+    long-lived target object's previous transfer; used only to NAME a deviation (outcome == the table evaluated on
+    that outdated dictionary instead of D), never to decide whether there is one.
     """
     rng = ctx.rng
     flags = {"kind": kind, "via": via, "overwrite": ow, "ignore_master": ignore_master if master is not None else None,
@@ -384,7 +404,7 @@ def judge(ctx, pfx, kind, via, S, D, M, ow, ignore_master, sub, ret, exc, source
     if exc is not None:
         ctx.fail("%s%s:%s:raised:%s" % (pfx, via, kind, type(exc).__name__), repr(exc)[:400], det)
         ctx.note(sig, nontrivial=False)
-        return False
+        return None
 
     exp_res, exp_upd, exp_conf = table(S, D, ow, sub)
     touched_master = master is not None and not ignore_master
@@ -392,6 +412,9 @@ def judge(ctx, pfx, kind, via, S, D, M, ow, ignore_master, sub, ret, exc, source
         mres, mupd, mconf = table(S, M, ow, sub)
         exp_upd = dict(exp_upd, **mupd)
         exp_conf = exp_conf | mconf
+    st = table(S, stale, ow, sub) if stale is not None and stale != D else None
+    if st is not None and touched_master:
+        st = (st[0], dict(st[1], **mupd), st[2] | mconf)
     # -- result dictionaries through fresh objects
     good = True
     got = target.read()
@@ -402,7 +425,9 @@ def judge(ctx, pfx, kind, via, S, D, M, ow, ignore_master, sub, ret, exc, source
         ctx.count("oracle_git_source")
     if got != exp_res:
         good = False
-        ctx.fail("%s%s:%s:result:%s" % (pfx, via, kind, classify(S, D, ow, sub, got)),
+        ctx.fail("%s%s:%s:result:%s" % (pfx, via, kind, "stale-destination-view"
+                                        if st is not None and (got == st[0] or (got == D and st[0] == stale))
+                                        else classify(S, D, ow, sub, got)),
                  "target reads %r, table says %r" % (jd(got), jd(exp_res)), dict(det, got=jd(got), expected=jd(exp_res)))
     if master is not None:
         mgot = master.read()
@@ -424,13 +449,15 @@ def judge(ctx, pfx, kind, via, S, D, M, ow, ignore_master, sub, ret, exc, source
         conf_s = set(conf_l)
     except Exception as e:
         ctx.fail("%s%s:%s:report-shape" % (pfx, via, kind), "returned %r (%r)" % (ret, e), det)
-        return good
+        return got if good else None
     if upd != exp_upd:
-        ctx.fail("%s%s:%s:updates" % (pfx, via, kind), "updates %r, table says %r" % (jd(upd), jd(exp_upd)),
+        ctx.fail("%s%s:%s:updates%s" % (pfx, via, kind, ":stale-destination-view" if st is not None and upd == st[1] else ""),
+                 "updates %r, table says %r" % (jd(upd), jd(exp_upd)),
                  dict(det, got=jd(upd), expected=jd(exp_upd)))
     if conf_s != exp_conf:
         swapped = {(n, b, a) for n, a, b in conf_s} == exp_conf and bool(conf_s)
-        ctx.fail("%s%s:%s:conflicts%s" % (pfx, via, kind, ":swapped-values" if swapped else
+        ctx.fail("%s%s:%s:conflicts%s" % (pfx, via, kind, ":stale-destination-view" if st is not None and conf_s == st[2] else
+                                          ":swapped-values" if swapped else
                                           (":missing" if exp_conf - conf_s else ":spurious")),
                  "conflicts %r, table says %r" % (jc(conf_s), jc(exp_conf)),
                  dict(det, got=jc(conf_s), expected=jc(exp_conf)))
@@ -438,7 +465,7 @@ def judge(ctx, pfx, kind, via, S, D, M, ow, ignore_master, sub, ret, exc, source
     ctx.distinct("pairing-flags", [pfx, kind, via, ow, flags["ignore_master"], sub is not None])
     ctx.note(sig, nontrivial=bool(S) and len(cl) >= 2,
              sample=dict(det, result=jd(got), updates=jd(upd), conflicts=jc(conf_s)) if rng.random() < sample_p else None)
-    return good
+    return got if good else None
 
 
 # ------------------------------------------------------------------ long-lived objects
@@ -477,6 +504,7 @@ def session(ctx, kind, src_kind, tgt_kind, source, target, master, revs):
     # what happened to A since its last tag read: None | "xfer" (received a transfer) | "xfer+other" (... and then
     # somebody else wrote the branch)
     trail = None
+    a_last = None   # what the target held right after A's latest transfer (naming aid only, see judge)
     steps = 8 if ctx.tier == "quick" else 12
     for _ in range(steps):
         r = rng.random()
@@ -520,10 +548,12 @@ def session(ctx, kind, src_kind, tgt_kind, source, target, master, revs):
             if trail == "xfer+other":
                 ctx.count("oracle_session_transfer_after_foreign_write")
             ctx.hist("session-transfer:after-" + str(trail))
-            if not judge(ctx, "session:", pairing, via, S, D, M, ow, ignore_master, sub, ret, exc, src, target, jmaster,
-                         0.01, extra={"A-since-last-read": trail}):
+            now = judge(ctx, "session:", pairing, via, S, D, M, ow, ignore_master, sub, ret, exc, src, target, jmaster,
+                        0.01, extra={"A-since-last-read": trail}, stale=a_last if trail is not None else None)
+            if now is None:
                 return   # later steps would only echo it
             trail = "xfer"
+            a_last = now
         elif r < 0.85:
             # ---- somebody else (a fresh opener) writes the target, the master or replaces the whole dictionary
             st = master if (master is not None and rng.random() < 0.25) else target
@@ -571,7 +601,7 @@ def case(ctx):
 def _case(ctx):
     rng = ctx.rng
     kind = KINDS[ctx.index % len(KINDS)]
-    direct_contract(ctx, 30 if ctx.tier == "quick" else 40)
+    direct_contract(ctx, 25 if ctx.tier == "quick" else 40)
     bencode_roundtrip(ctx, 3)
     root = ctx.tmp("c24")
     src_kind, _, tgt_kind = kind.partition(">")
@@ -606,7 +636,7 @@ def _case(ctx):
         ctx.discard("fixture:%s:%s" % (kind, type(e).__name__))
     ctx.hist("kind:" + kind)
 
-    rounds = 7 if ctx.tier == "quick" else 10
+    rounds = 5 if ctx.tier == "quick" else 10
     for _ in range(rounds):
         if gitish:
             names = rng.sample(GIT_NAMES, 5)
